@@ -34,8 +34,31 @@ func scanReal(res *dig.Result, data []byte, capx int) (out string, rows int) {
 	input := backing[:len(data):len(backing)]
 	lo := uintptr(unsafe.Pointer(unsafe.SliceData(backing)))
 	hi := lo + uintptr(len(data))
+	if stuck[res] {
+		return "timeout", 0 // a scan through this decoder never returned: it is still running, the decoder is not reused
+	}
 	t0 := time.Now()
-	out = core.Protect(func() string {
+	done := make(chan string, 1)
+	go func() { done <- scanBody(res, input, lo, hi, &rows) }()
+	select {
+	case out = <-done:
+	case <-time.After(8 * time.Second):
+		stuck[res] = true
+		return "timeout", 0
+	}
+	if time.Since(t0) > 2*time.Second {
+		out = "timeout"
+	}
+	return out, rows
+}
+
+// stuck: decoders with a scan that did not return within the time allowed
+var stuck = map[*dig.Result]bool{}
+
+func scanBody(res *dig.Result, input []byte, lo, hi uintptr, nrows *int) string {
+	return core.Protect(func() string {
+		rows := 0
+		defer func() { *nrows = rows }()
 		if err := res.Scan(input); err != nil {
 			return "err"
 		}
@@ -63,10 +86,6 @@ func scanReal(res *dig.Result, data []byte, capx int) (out string, rows int) {
 		}
 		return sb.String()
 	})
-	if time.Since(t0) > 2*time.Second {
-		out = "timeout"
-	}
-	return out, rows
 }
 
 func arrDepth(t *aty) int {
@@ -121,7 +140,9 @@ func runABI(e *core.Env, prop string) error {
 		return []*big.Int{p(63), sub(p(63), 1), sub(p(64), 32), sub(p(64), 1), p(64), sub(p(256), 1), p(255), big.NewInt(int64(n)), big.NewInt(int64(n) - 31),
 			big.NewInt(int64(n) - 32), big.NewInt(int64(n) + 1), big.NewInt(int64(n) - 1), big.NewInt(0), big.NewInt(32), big.NewInt(31), big.NewInt(1 << 32), p(62), big.NewInt(int64(n) + 32), new(big.Int).Add(p(64), big.NewInt(32)), sub(p(63), 32),
 			// lengths whose product with an element size (32, 64, ...) wraps around 2^64 to something small
-			p(58), new(big.Int).Add(p(58), big.NewInt(1)), p(59), new(big.Int).Add(p(59), big.NewInt(1)), new(big.Int).Add(p(59), big.NewInt(2)), p(60), p(61), new(big.Int).Add(p(61), big.NewInt(3))}
+			p(58), new(big.Int).Add(p(58), big.NewInt(1)), p(59), new(big.Int).Add(p(59), big.NewInt(1)), new(big.Int).Add(p(59), big.NewInt(2)), p(60), p(61), new(big.Int).Add(p(61), big.NewInt(3)),
+			// lengths a machine can actually iterate over but the data cannot hold
+			big.NewInt(1 << 16), big.NewInt(1 << 18), big.NewInt(int64(n)*8 + 1)}
 	}
 	k := 0
 	for _, ec := range evs {
@@ -212,7 +233,7 @@ func runABI(e *core.Env, prop string) error {
 			out, rows := scanReal(res, data, capx)
 			seqOp = append(seqOp, core.Hex(data))
 			seqImpl = append(seqImpl, out)
-			if insertIG != nil && len(data) > 0 {
+			if insertIG != nil && len(data) > 0 && out != "timeout" {
 				topics := []eth.Bytes{append(eth.Bytes(nil), ev.SignatureHash()...)}
 				for i := 0; i < nIndexed; i++ {
 					topics = append(topics, bytes32(byte(0x11+i)))
